@@ -163,11 +163,12 @@ PROPS = {
                 'Whole log: resource_usage() is verified to return memory_used_bytes == used_view(view, c) (O-C16-used), the weighted sum over the abstract state of name bytes + retained payload bytes + c per retained record '
                 '(so: at least names + payload, and above them by exactly c per retained record: O-C16-bounds), memory_allocated_bytes >= memory_used_bytes (O-C16-alloc), the names-only baseline when every queue is empty (O-C16-baseline), '
                 'and truncate lowers used_view by exactly the evicted payload bytes plus c per evicted record (O-C16-api-trunc, from the view transition and the spec lemma lemma_used_truncate). '
-                'The sums are defined order-independently over finite maps (spec/vsum.rs: wsum and its lemmas, proved once).',
+                'The sums are defined order-independently over finite maps (spec/vsum.rs: wsum and its lemmas, proved once); MemQueues::size is verified to return them whatever order the HashMap iterates in (O-C16-mqs-size, lemma_wsum_enumeration).',
         kani_quick=[], kani_thorough=[],
-        trusted=['MemQueues::size (ASSUMED contract A-mqs-size: the two `iter().map(closure).sum()` chains are the sums of name.len() + queue.size() and of name.capacity() + queue.capacity(); iterator adapters with a tuple-pattern closure are outside Verus)',
+        trusted=['std contract of Iterator::map(..).sum() (R31 shim iter_map_sum: the sum of the closure over the items when it fits usize) and of HashMap::iter (vstd: every entry exactly once)',
+                 'A-mem-total: the two totals MemQueues::size adds up fit usize (all those bytes live in one address space)',
                  'Vec / VecDeque / String capacity >= len (std)'],
-        not_decided=['capacity actually shrinking after a truncation (std shrink_to heuristics)', 'overflow of the two sums (usize; physical bound)'],
+        not_decided=['capacity actually shrinking after a truncation (std shrink_to heuristics)', 'overflow of the two sums (usize; named assumption A-mem-total)'],
     ),
     'C17': dict(
         level='proof',
